@@ -9,7 +9,8 @@
 (*   hist   gates applied so far; MEASURE entries carry the selected        *)
 (*          outcome in the field k                                          *)
 (*   d, nmeas  number of steps / measurements taken                         *)
-(*   src    initial state: "zero" = |0..0>, "generic" = Run(|0..0>, Prep)   *)
+(*   src    initial state: "zero" = |0..0>, "generic" = Run(|0..0>, Prep),  *)
+(*          "one0" = |10..0>                                                *)
 (*   terms  operator under construction: sequence of [w, c]                 *)
 (*   dmax, tmax, cplx  shape of this behaviour (chosen in Init)             *)
 (* Actions                                                                 *)
@@ -52,6 +53,7 @@ BoolBoth     == BOOLEAN
 SrcBoth      == {"zero", "generic"}
 SrcZero      == {"zero"}
 SrcGeneric   == {"generic"}
+SrcOne       == {"one0"}
 
 Qubits == 0..(N-1)
 QK == QuarterK
@@ -78,10 +80,15 @@ GenericPrep ==
 
 Generic == Run(ZeroState(N), GenericPrep, N)
 
-S0(s) == IF s = "zero" THEN ZeroState(N) ELSE Generic
-PrepOf(s) == IF s = "zero" THEN <<>> ELSE GenericPrep
+\* |1 0 ... 0>: a single excitation on qubit 0, the simplest state that is NOT symmetric under reversal of the qubit
+\* order (bit-reversed outcome strings / amplitude indices show on it for every Z-type word)
+OnePrep  == << G("X", <<0>>, <<>>, 0) >>
+OneState == Run(ZeroState(N), OnePrep, N)
 
-ASSUME Export => PrintT(<<"PREP", ToJson([n |-> N, prep |-> GenericPrep, s0 |-> Generic])>>)
+S0(s) == IF s = "zero" THEN ZeroState(N) ELSE IF s = "one0" THEN OneState ELSE Generic
+PrepOf(s) == IF s = "zero" THEN <<>> ELSE IF s = "one0" THEN OnePrep ELSE GenericPrep
+
+ASSUME Export => PrintT(<<"PREP", ToJson([n |-> N, prep |-> GenericPrep, s0 |-> Generic, prep1 |-> OnePrep, s1 |-> OneState])>>)
 
 \* ---- coefficients (small ring values: Gaussian dyadic rationals) -----------------
 RealCoefs == { ROne, Neg(ROne), Half(ROne), Neg(Half(ROne)), FromInt(2), Dyadic(-3, 2), Dyadic(3, 1), Dyadic(1, 2) }
